@@ -19,6 +19,7 @@ mod c11;
 mod c18;
 mod c08;
 mod c14;
+mod c13;
 
 use ctx::{Ctx, Tier};
 
@@ -29,6 +30,11 @@ fn main() {
         std::process::exit(2);
     }
     let prop = args[1].clone();
+    if prop == "C13-child" {
+        // hidden sub-command: one Yen case in a resource-limited child process (see c13.rs)
+        c13::child_main(&args[2..]);
+        return;
+    }
     let mut seed: u64 = 20260926;
     let mut tier = Tier::Quick;
     let mut out = String::from("work/tmp");
@@ -84,6 +90,7 @@ fn main() {
         "C14" => c14::run(&mut ctx),
         "C17" => c17::run(&mut ctx),
         "C19" => c19::run(&mut ctx),
+        "C13" => c13::run(&mut ctx),
         _ => {
             eprintln!("unknown property {}", prop);
             std::process::exit(2);
